@@ -1,16 +1,14 @@
 python3 - <<'P'
 p='src/geckolib/async_spa_manager.py'
 s=open(p).read()
-s2=s.replace('''            await locator.discover()
-            self._spa_descriptors = locator.spas
-            del locator
+s2=s.replace('''            del locator
 
         finally:
-            await self._handle_event(''','''            await locator.discover()
-            self._spa_descriptors = locator.spas
-            del locator
+            await self._handle_event(''','''            del locator
 
-        if True:
+        except ZeroDivisionError:
+            raise
+        else:
             await self._handle_event(''')
 assert s2!=s; open(p,'w').write(s2)
 P
